@@ -38,6 +38,21 @@ BinFs == {"add", "sub", "mul", "div", "pow", "lt", "eq"}
 IopFs == {"add", "sub", "mul", "div", "pow"}
 UnFs == {"negative", "square"}
 USlots == {"U1", "U2"}
+\* generic copying families: every binary ufunc family, in every form, both operand orders (x, y range over the same
+\* objects; the configurations put la and lb on either side)
+GX == {"A", "V", "B", "Q"}
+GY == GX \cup {"two"}
+GUfuncs == {"add", "subtract", "multiply", "true_divide", "floor_divide", "remainder", "fmod", "divmod", "power", "maximum",
+            "minimum", "fmax", "fmin", "hypot", "arctan2", "copysign", "less", "less_equal", "greater", "greater_equal",
+            "equal", "not_equal"}
+GOperators == {"add", "subtract", "multiply", "true_divide", "floor_divide", "remainder", "divmod", "power", "less",
+               "less_equal", "greater", "greater_equal", "equal", "not_equal"}
+GUnary == {"negative", "absolute", "sqrt", "square", "reciprocal", "sign", "floor", "ceil", "rint", "exp", "sin", "isfinite", "cbrt", "positive"}
+GArrFns == {"concatenate", "stack", "vstack", "hstack", "where", "clip", "isclose", "allclose", "array_equal", "array_equiv",
+            "intersect1d", "union1d", "setdiff1d", "isin", "searchsorted", "append", "insert", "dot", "inner", "outer", "kron",
+            "interp", "allclose_units", "linspace", "select", "copyto_new"}
+GMethods == {"sum", "mean", "std", "var", "min", "max", "prod", "cumsum", "cumprod", "round", "argsort", "sort", "ptp", "diff",
+             "median", "tolist", "astype", "flatten", "unit_array", "to_ndarray", "str"}
 
 Catalogue ==
   {Call(op, "", x, "", "", u, "") : op \in {"in_units", "to", "to_value", "convert_to_units"}, x \in XS, u \in ConvTargets}
@@ -55,6 +70,12 @@ Catalogue ==
   \cup {Call(op, "", x, y, "", "", "") : op \in {"umul", "udiv"}, x \in USlots, y \in USlots}
   \cup {Call("upow", "", x, y, "", "", "") : x \in USlots, y \in {"two", "Q"}}
   \cup {Call(op, "", x, "", "", "", "") : op \in {"ubase", "ucoeff", "ucopy", "usimplify"}, x \in USlots}
+  \cup {Call("gufunc", f, x, y, "", "", e) : f \in GUfuncs, x \in GX, y \in GY, e \in {"call", "outer"}}
+  \cup {Call("gufunc", f, x, y, "", "", "op") : f \in GOperators, x \in GX, y \in GY}
+  \cup {Call("gufunc", f, x, "", "", "", e) : f \in GUfuncs, x \in GX, e \in {"reduce", "accumulate"}}
+  \cup {Call("gunary", f, x, "", "", "", "") : f \in GUnary, x \in GX}
+  \cup {Call("garrfn", f, x, y, "", "", "") : f \in GArrFns, x \in GX, y \in GY}
+  \cup {Call("gmethod", f, x, "", "", "", "") : f \in GMethods, x \in GX}
 
 \* OpSet restricts the first call, OpSet2 the later ones ({} = no restriction); FocusR: later calls are in-place
 \* calls whose target is R, the result of the previous copying call (does a "new object" share memory with an input?)
@@ -74,19 +95,21 @@ Step(c) ==
 
 Init == /\ cfg \in Configs /\ st = InitState(cfg) /\ hist = <<>> /\ mv = {} /\ hh = 0
 Next == Len(hist) < MaxLen /\ hh' = 0 /\ \E c \in Offered : Enabled(st, c) /\ Step(c)
-\* deterministic pseudo-random thinning for deep histories over the full alphabet: the catalogue is put in TLC's
+\* deterministic pseudo-random thinning for deep histories over the full alphabet: the offered calls are put in TLC's
 \* (deterministic) set order; call number i is offered in a state iff a hash of (i, history hash, configuration, Seed)
 \* hits 0 modulo Kmod - about Fan calls per state.  Seed comes from VERIF_SEED.
-CatSeq == SetToSeq(Catalogue)
-Kmod == IF Len(CatSeq) \div Fan < 1 THEN 1 ELSE Len(CatSeq) \div Fan
+OffSeq1 == SetToSeq(Offered1)
+OffSeq2 == SetToSeq(Offered2)
+OffSeq == IF hist = <<>> THEN OffSeq1 ELSE OffSeq2
+Kmod == IF Len(OffSeq) \div Fan < 1 THEN 1 ELSE Len(OffSeq) \div Fan
 CfgHash == Len(cfg.dtA) + (IF cfg.dtA = "f8" THEN 3 ELSE IF cfg.dtA = "i8" THEN 5 ELSE 7) + (IF cfg.uA = "la" THEN 11 ELSE IF cfg.uA = "oc" THEN 13 ELSE 17)
            + (IF cfg.uB = "lb" THEN 19 ELSE IF cfg.uB = "K" THEN 23 ELSE 29) + (IF cfg.dtB = "f8" THEN 31 ELSE 37)
 Pick(i) == ((i * 7919 + hh * 131 + CfgHash * 1009 + (Seed % 1000) * 17) % Kmod) = 0
 NextRnd == /\ Len(hist) < MaxLen
-           /\ \E i \in 1..Len(CatSeq) :
+           /\ \E i \in 1..Len(OffSeq) :
                 /\ Pick(i)
-                /\ Enabled(st, CatSeq[i])
-                /\ Step(CatSeq[i])
+                /\ Enabled(st, OffSeq[i])
+                /\ Step(OffSeq[i])
                 /\ hh' = (hh * 31 + i) % 1000003
 Spec == Init /\ [][Next]_vars
 
